@@ -63,6 +63,17 @@ def gen_log(rng, n, tier):
         c = gen_model(rng, rng.randint(1, 8) if rng.random() < 0.85 else rng.randint(9, 24), 5, rng.choice([[0, 1, 2], [0, 1, 2, 3, 5, 8], [1, 1, 2], [0, 0.5, 0.25, 3], [-1, 0, 1, 2], [-2, -0.5, 0, 3, 0.25]]))     # costs = -log likelihood; negative = an unnormalised likelihood above 1
         c['log'] = True
         out.append(c)
+    for _ in range(max(2, n // 100)):
+        # large candidate lists with structure: the states that look best so far have expensive transitions onward, the optimal sequence passes
+        # through a state ranked far down the list (pruning the list by accumulated cost would lose it)
+        n0 = rng.choice([105, 130, 160]); n1 = rng.randint(1, 3); tail = rng.randint(3, 12)
+        p0 = [1] * (n0 - tail) + [2] * tail
+        rng.shuffle(p0)
+        q1 = [[(0 if p0[l] == 2 else rng.choice([40, 50])) + rng.choice([0, 1]) for _ in range(n1)] for l in range(n0)]
+        c = {'ns': [n0, n1], 'p': [p0, [rng.choice([0, 1, 2]) for _ in range(n1)]], 'q': [None, q1], 'log': True, 'again': False}
+        if rng.random() < 0.5:      # a small epoch in front
+            c = {'ns': [2, n0, n1], 'p': [[0, 1], p0, c['p'][1]], 'q': [None, [[rng.choice([0, 1]) for _ in range(n0)] for _ in range(2)], q1], 'log': True, 'again': False}
+        out.append(c)
     return out
 
 
